@@ -75,7 +75,7 @@ class C10(Check):
     }
     required_probes = [
         "step_with_nonzero_mismatch", "step_with_zero_mismatch", "repeated_eval_without_step", "two_bodies_spread_into_nonzero_field",
-        "overlapping_supports", "reset_eval_into_dirty_field", "dt_ratio_ge_100", "step_before_any_eval", "uniform_flow_eval", "generic_flow_eval", "prelude_world_with_other_dx", "non_contiguous_eulerian_fields", "deviation_query", "many_markers", "linear_flow_eval", "creeping_body", "fresh_object_interpolation_probe",
+        "overlapping_supports", "reset_eval_into_dirty_field", "dt_ratio_ge_100", "step_before_any_eval", "uniform_flow_eval", "generic_flow_eval", "prelude_world_with_other_dx", "non_contiguous_eulerian_fields", "deviation_query", "many_markers", "linear_flow_eval", "creeping_body", "fresh_object_interpolation_probe", "simulator_finalised_after_interactor",
     ]
     tiers = {
         "quick": {"runs": 480, "batch": 6, "timeout": 600},
@@ -118,8 +118,9 @@ class C10(Check):
             prog["padded"] = True
             self.execute(prog, Result())
             prog["padded"] = False
-            prog["shift_frac"] = 0.25
-            self.execute(prog, Result())
+            for sf in (0.25, 0.0):
+                prog["shift_frac"] = sf
+                self.execute(prog, Result())
 
     # ------------------------------------------------------------------ program
     def draw(self, rng, tier, run):
@@ -148,6 +149,7 @@ class C10(Check):
                     "num_threads": rng.choice([False, False, 2]),
                     "prestrain": rng.choice([1.0, 1.0, 1.25, 0.85]),
                     "axis_down": rng.random() < 0.4,
+                    "finalize_after": rng.random() < 0.4,
                 }
             )
         ops = []
@@ -199,7 +201,7 @@ class C10(Check):
         if all(b["kind"] == "prog" for b in bodies) and rng.random() < 0.2:
             prog["padded"] = True
         if all(b["kind"] == "prog" for b in bodies) and rng.random() < 0.15:
-            prog["shift_frac"] = 0.25
+            prog["shift_frac"] = rng.choice([0.25, 0.0])  # 0.0: node-centred grid
         if rng.random() < 0.25:
             b0 = dict(bodies[0], sub=prng.sub_seed(rng), reset=False)
             prog["prelude"] = {
@@ -228,7 +230,7 @@ class C10(Check):
         if spec.get("explicit_args"):
             # the documented defaults, passed explicitly: exercises the positional pass-through of the subclasses
             common.update(eul_grid_coord_shift=real_t(dx / 2), interp_kernel_width=2)
-        if spec.get("shift_frac", 0.5) != 0.5:
+        if float(spec.get("shift_frac", 0.5)) != 0.5:
             # a grid whose first cell centre sits at shift_frac * dx instead of dx / 2 (public parameter)
             common.update(eul_grid_coord_shift=real_t(spec["shift_frac"] * dx))
         reset = bool(spec.get("reset", reset))
@@ -373,9 +375,22 @@ class C10(Check):
         twin_field = np.zeros_like(forcing)
         twin = build(True, twin_field)
         n = int(inter.forcing_grid.num_lag_nodes)
+        if spec.get("finalize_after") and kind in ("cylinder", "sphere") or (spec.get("finalize_after") and kind.startswith("rod")):
+            # as in the examples: interactors are built first, then the PyElastica simulator is finalised,
+            # which re-binds every array of the body to block memory
+            class _Sim(ea.BaseSystemCollection):
+                pass
+
+            sim_ = _Sim()
+            sim_.append(body)
+            sim_.finalize()
+            state_arrays = {k: getattr(body, {"p": "position_collection", "v": "velocity_collection", "w": "omega_collection", "Q": "director_collection", "r": "radius"}[k]) for k in state_arrays}
+            keep_alive = sim_
+        else:
+            keep_alive = None
         model = PIModel(dim, n, spec["k"], spec["c"], h_max, spec["t0"])
         h_rel = 1.0e-11 if kind.startswith("rod") else 1.0e-15  # elastica regularises rod.lengths at the 1e-13 level
-        return {"rebuild": build, "reset": reset, "h_rel": h_rel, "inter": inter, "twin": twin, "twin_field": twin_field, "model": model, "state": state_arrays, "move": move, "n": n, "kind": kind, "evals_since_step": 0, "ever_eval": False, "dts": []}
+        return {"keep_alive": keep_alive, "finalized": keep_alive is not None, "rebuild": build, "reset": reset, "h_rel": h_rel, "inter": inter, "twin": twin, "twin_field": twin_field, "model": model, "state": state_arrays, "move": move, "n": n, "kind": kind, "evals_since_step": 0, "ever_eval": False, "dts": []}
 
     @staticmethod
     def _rigid_marker_velocity(b, it, dim):
@@ -435,6 +450,8 @@ class C10(Check):
         reset = None  # per body from here on
         if any(x["n"] >= 500 for x in bodies):
             res.probe("many_markers")
+        if any(x["finalized"] for x in bodies):
+            res.probe("simulator_finalised_after_interactor")
         nb = len(bodies)
         uniform = [0.0] * dim  # current flow is uniform with this value, or None
         state = {"linear": None}  # current flow is linear: (a, B), or None
